@@ -18,3 +18,9 @@ pub use strum::IntoEnumIterator as IterableEnum;
 extern crate alloc;
 
 pub type Result<T> = core::result::Result<T, error::Error>;
+
+/// Verification-only re-exports (deterministic simulation harness in /verif)
+#[cfg(rustzx_verif)]
+pub mod verif {
+    pub use crate::zx::tape::{Tap, TapeImpl};
+}
